@@ -134,6 +134,7 @@ type fieldInfo struct {
 	typ      types.Type
 	embedded bool
 	skipped  string // non-empty: reason the field is not represented
+	extern   bool   // external object (see externFields)
 }
 
 // leanType maps a Go type to the Lean type that represents it; nat selects Nat
@@ -237,7 +238,10 @@ func (x *xlator) structOf(t types.Type) *structInfo {
 	for i := 0; i < st.NumFields(); i++ {
 		fv := st.Field(i)
 		fi := &fieldInfo{name: fv.Name(), lean: leanIdent(fv.Name()), typ: fv.Type(), embedded: fv.Embedded()}
-		if why := x.unrepresentable(fv.Type()); why != "" {
+		if externFields[n.Obj().Pkg().Name()+"."+n.Obj().Name()+"."+fv.Name()] {
+			fi.skipped = "external object: the methods called on it are function arguments of the translated functions"
+			fi.extern = true
+		} else if why := x.unrepresentable(fv.Type()); why != "" {
 			fi.skipped = why
 		}
 		si.fields = append(si.fields, fi)
@@ -312,27 +316,33 @@ func (x *xlator) unrepresentable(t types.Type) string {
 }
 
 const prelude = `/-- Go ` + "`error`" + ` values: nil, a package-level error variable (compared by identity),
-or an error made on the spot (` + "`fmt.Errorf`, `errors.New`" + `; its text is never looked at). -/
+a constant of a named integer type that implements ` + "`error`" + ` (` + "`val`" + `: type name and value), or
+an error made on the spot (` + "`fmt.Errorf`, `errors.New`" + `; its text is never looked at). -/
 inductive Err where
   | nil
   | var (name : String)
+  | val (typ : String) (v : Nat)
   | dyn
 deriving DecidableEq, Repr
 
 /-- Outcome of a translated function that can fail to return normally:
 ` + "`panic`" + ` = a Go run-time panic (index or slice bounds, division by zero, explicit
 ` + "`panic`" + `), ` + "`fuel`" + ` = the iteration budget given to an unbounded ` + "`for`" + ` loop ran out
-(Go has no such outcome; the tie theorems show it does not occur for a stated budget). -/
+(Go has no such outcome; the tie theorems show it does not occur for a stated budget),
+` + "`blocked`" + ` = a call of an external operation (an argument of the translated function standing
+for a method of an object that is not translated) did not return. -/
 inductive Res (α : Type) where
   | ok (a : α)
   | panic
   | fuel
+  | blocked
 deriving DecidableEq, Repr
 
 def Res.bind {α β : Type} : Res α → (α → Res β) → Res β
   | .ok a, f => f a
   | .panic, _ => .panic
   | .fuel, _ => .fuel
+  | .blocked, _ => .blocked
 
 namespace Go
 
@@ -346,6 +356,11 @@ def xorInt (w : Nat) (a b : Int) : Int := (BitVec.ofInt w a ^^^ BitVec.ofInt w b
 def mapGet {κ ν : Type} [BEq κ] (m : List (κ × ν)) (k : κ) : Option ν := m.lookup k
 def mapDel {κ ν : Type} [BEq κ] (m : List (κ × ν)) (k : κ) : List (κ × ν) := m.filter (fun p => p.1 != k)
 def mapSet {κ ν : Type} [BEq κ] (m : List (κ × ν)) (k : κ) (v : ν) : List (κ × ν) := (k, v) :: mapDel m k
+
+/-- ` + "`bytes.IndexByte`" + ` (trusted: the standard-library function is assembly) -/
+def indexByte : List UInt8 → UInt8 → Int
+  | [], _ => -1
+  | b :: rest, c => if b == c then 0 else (let r := indexByte rest c; if r < 0 then -1 else r + 1)
 
 end Go
 `
